@@ -145,17 +145,23 @@ def check_dot(ctx, prop, exporter_kind, lib, nodes, idmap, names, par, ch, s, st
             namefn = lambda x: "%s:%d" % (cur.get("names", names)[x], x)  # noqa: E731
             kw["nodenamefunc"] = lambda n: "%s:%d" % (n.name, lab(n))
         if custom.get("nattr"):
-            nattr = lambda x: 'shape=box, label="%s"' % (cur.get("names", names)[x],)  # noqa: E731
+            npartial = custom["nattr"] == "partial"  # the user function declines (returns None) for some nodes
+            nattr = lambda x: None if npartial and x % 3 == 0 else 'shape=box, label="%s"' % (cur.get("names", names)[x],)  # noqa: E731
 
             def _nattr(n):
                 if cur["abort"] is not None and lab(n) == cur["abort"]:
                     raise AbortIteration()
+                if npartial and lab(n) % 3 == 0:
+                    return None
                 return 'shape=box, label="%s"' % (n.name,)
 
             kw["nodeattrfunc"] = _nattr
         if custom.get("eattr"):
-            eattr = lambda p, c: "label=%d_%d" % (p, c)  # noqa: E731
-            kw["edgeattrfunc"] = lambda p, c: "label=%d_%d" % (lab(p), lab(c))
+            epartial = custom["eattr"] == "partial"  # ... and for some edges, also between two decorated siblings
+            eattr = lambda p, c: None if epartial and (p + c // 2) % 2 else "label=%d_%d" % (p, c)  # noqa: E731
+            kw["edgeattrfunc"] = lambda p, c: eattr(lab(p), lab(c))
+            if epartial:
+                ctx.count("%s.custom_function_returns_none" % prop)
         if custom.get("etype"):
             edgetype = "--"
             kw["edgetypefunc"] = lambda p, c: "--"
@@ -251,7 +257,7 @@ def _verify_dot(ctx, prop, lines, bad, ind, graph, gname, options, ch, s, stop, 
                 return bad("identifier-escaping", '"%s"' % esc(want), ln)
         ids[x] = ident
         if nattr is not None:
-            wantrest = " [%s];" % nattr(x)
+            wantrest = ";" if nattr(x) is None else " [%s];" % nattr(x)
         elif exporter_kind == "unique":
             wantrest = ' [label="%s"];' % (names[x],)
         else:
@@ -280,8 +286,12 @@ def _verify_dot(ctx, prop, lines, bad, ind, graph, gname, options, ch, s, stop, 
         if b is None:
             return bad("edge-quoting", "quoted identifier", ln)
         got_edges.append((a[0], b[0], ln[b[1]:], ln))
+    def erest(p, c):
+        v = eattr(p, c) if eattr else None
+        return ";" if v is None else " [%s];" % v
+
     # resolve identifiers back to nodes where possible (names may collide for the plain exporter)
-    exp_multiset = sorted((ids[p], ids[c], (" [%s];" % eattr(p, c)) if eattr else ";") for p, c in edges)
+    exp_multiset = sorted((ids[p], ids[c], erest(p, c)) for p, c in edges)
     got_multiset = sorted((a, b, r) for a, b, r, _ in got_edges)
     if got_multiset == exp_multiset:
         for a, b, r, ln in got_edges:
@@ -307,8 +317,8 @@ def _verify_dot(ctx, prop, lines, bad, ind, graph, gname, options, ch, s, stop, 
                 return True
         else:
             nm = namefn if namefn else (lambda x: str(names[x]))
-            exp2 = sorted([(ids[p], ids[c], (" [%s];" % eattr(p, c)) if eattr else ";") for p, c in edges] +
-                          [(ids[p], nm(c), (" [%s];" % eattr(p, c)) if eattr else ";") for p, c in surplus])
+            exp2 = sorted([(ids[p], ids[c], erest(p, c)) for p, c in edges] +
+                          [(ids[p], nm(c), erest(p, c)) for p, c in surplus])
             if got_multiset == exp2:
                 ctx.known_finding("dot-edge-to-stopped-child", cfg, {"surplus": surplus})
                 ctx.count("%s.known.dot-edge-to-stopped-child" % prop)
@@ -516,6 +526,7 @@ CUSTOMS = [
     {"indent": 2, "graph": "graph", "name": "G", "options": ["rankdir=LR;", 'node [shape="box"];'], "namefunc": True, "nattr": True, "eattr": True, "etype": True},
     {"indent": 0, "graph": "digraph", "name": "my tree", "options": [], "namefunc": True},
     {"indent": 7, "graph": "digraph", "name": "t", "options": ["a=b;"], "nattr": True, "eattr": True},
+    {"indent": 3, "graph": "digraph", "name": "p", "options": [], "nattr": "partial", "eattr": "partial"},
 ]
 
 HOSTILE_NAMES = ['a"b', "back\\slash", 'q"\\"', "sp ace", "é中", "\\", '"', "a\\\\b", "x;y", "tab\tz", "n{}", "->", "[lbl]", "a", "a", "b", "\U0001f600", "new\nline", "'", "%s", ("it's", 'q"', 1), 3.5, None, ("\\",), "cpu%%", "100%", "%d%%", 'many' + '"\\' * 20, '"' * 40, "e\u0301", "\u00e9", "\u212b", "A\u030a", "\u00c5", "\u2126"]
@@ -551,10 +562,29 @@ def value_node_class():
     return _VALUE_CLS[0]
 
 
-def build(par, names, value_semantics=False):
+_FALSY_CLS = []
+
+
+def falsy_node_class():
+    """Container-like Node subclass: len() is the number of children, so every leaf is falsy."""
     from anytree import Node
 
-    if value_semantics:
+    if not _FALSY_CLS:
+        class BagNode(Node):
+            def __len__(self):
+                return len(self.children)
+
+        _FALSY_CLS.append(BagNode)
+    return _FALSY_CLS[0]
+
+
+def build(par, names, value_semantics=False):
+    """value_semantics: False (plain Node), True (equal/hash by name) or "falsy" (container-like, leaves are falsy)."""
+    from anytree import Node
+
+    if value_semantics == "falsy":
+        Node = falsy_node_class()  # noqa: N806
+    elif value_semantics:
         Node = value_node_class()  # noqa: N806
     nodes = [Node(names[i]) for i in range(len(par))]
     for i, p in enumerate(par):
